@@ -149,11 +149,14 @@ func (d c19Doc) reference(host string) (ociauth.ConfigEntry, bool) {
 		}
 		return ociauth.ConfigEntry{}, true, false
 	}
-	if h, ok := d.CredHelpers[host]; ok && h != "" {
+	h, perHost := d.CredHelpers[host]
+	if perHost && h != "" {
 		e, failed, _ := helperResult(h)
 		return e, failed // a per-host helper wins, whatever it answers
 	}
-	if d.CredsStore != "" {
+	// a per-host entry naming no helper ("") still wins over the default store: the host uses
+	// the table (docker/cli's GetCredentialsStore has the same rule)
+	if d.CredsStore != "" && !perHost {
 		e, failed, missing := helperResult(d.CredsStore)
 		if !missing {
 			return e, failed
@@ -360,7 +363,11 @@ func c19DocClass(d c19Doc) string {
 	if len(d.CredHelpers) > 0 {
 		var hs []string
 		for h, n := range d.CredHelpers {
-			hs = append(hs, h+"-"+d.Helpers[n])
+			b := d.Helpers[n]
+			if n == "" {
+				b = "noname"
+			}
+			hs = append(hs, h+"-"+b)
 		}
 		sort.Strings(hs)
 		s += "/helpers-" + strings.Join(hs, "+")
@@ -467,7 +474,7 @@ func c19Docs(thorough bool) (orderDocs, precDocs []c19Doc) {
 	}
 	for _, tb := range tables {
 		for _, store := range append([]string{""}, behaviours...) {
-			for _, helper := range append([]string{"", "same-as-store"}, behaviours...) {
+			for _, helper := range append([]string{"", "same-as-store", "empty-name", "other-host-only"}, behaviours...) {
 				d := c19Doc{Entries: tb, Lookups: lookups, Helpers: map[string]string{}}
 				if store != "" {
 					d.CredsStore = "s"
@@ -480,6 +487,11 @@ func c19Docs(thorough bool) (orderDocs, precDocs []c19Doc) {
 						continue
 					}
 					d.CredHelpers = map[string]string{"h": "s"}
+				case "empty-name":
+					d.CredHelpers = map[string]string{"h": ""}
+				case "other-host-only":
+					d.CredHelpers = map[string]string{"unrelated.example": "x"}
+					d.Helpers["x"] = "creds"
 				default:
 					d.CredHelpers = map[string]string{"h": "x"}
 					d.Helpers["x"] = helper
@@ -521,7 +533,7 @@ func c19Check(r *vcore.Run) vcore.Coverage {
 		"map iteration inside decodeConfigFile is owned through the vsync.MapIter hook installed by the build overlay: every order of the initial keys, and for entries inserted during the loop both 'visited at any later point' and 'never visited'",
 	}
 	return vcore.Coverage{Evaluations: execs, Nontrivial: int64(len(orderDocs) + len(precDocs)), Exhaustive: true,
-		Rule: fmt.Sprintf("%d documents with <= 3 keys for one host out of {h, https://h/v1, http://h, h/path, //h, https://h} (+ unrelated host) x entry kinds, each loaded through LoadWithEnv under EVERY map iteration order; %d precedence documents (14 entry kinds incl. malformed base64, no colon, empty user, NUL, colon in password, ambiguous) x credsStore x credHelpers x 5 helper behaviours (also per-host helper = default store) with every permutation of repeated lookups on one ConfigFile; evaluations = loads", len(orderDocs), len(precDocs))}
+		Rule: fmt.Sprintf("%d documents with <= 3 keys for one host out of {h, https://h/v1, http://h, h/path, //h, https://h} (+ unrelated host) x entry kinds, each loaded through LoadWithEnv under EVERY map iteration order; %d precedence documents (14 entry kinds incl. malformed base64, no colon, empty user, NUL, colon in password, ambiguous) x credsStore x credHelpers x 5 helper behaviours (also per-host helper = default store, per-host entry naming no helper, helper for another host only) with every permutation of repeated lookups on one ConfigFile; evaluations = loads", len(orderDocs), len(precDocs))}
 }
 
 func c19Replay(r *vcore.Run, sub string, raw json.RawMessage) {
